@@ -255,6 +255,13 @@ class Ctx {
     if (verbose) printf("FAIL %s [%s] %s\n", key.c_str(), clause.c_str(), detail.c_str());
   }
 
+  // index of the known finding whose matcher covers `key`, or -1
+  int matchKnown(const std::string& key) const {
+    for (size_t i = 0; i < known.size(); i++)
+      if (std::regex_search(key, known[i].re)) return int(i);
+    return -1;
+  }
+
   void note(const std::string& s) { notes.push_back(s); }
   void bound(const std::string& s) { bounds.push_back(s); }
 
